@@ -143,11 +143,13 @@ func (e *Exec) topReturn(s *State, f *Frame, res []Value, in *ssa.Return) {
 	rn := e.retOrdinal(in)
 	s.trace = append(s.trace, fmt.Sprintf("%s: return #%d", e.posStr(in.Pos()), rn))
 	from := len(e.obls)
+	e.lazySMT = len(e.con.Ensures) >= 3
 	for i, en := range e.con.Ensures {
 		var g *Term
 		e.withPol(1, func() { g = e.evalClauseEnvRes(s, nil, en, env, old, res) })
 		e.emit(s, fmt.Sprintf("post.%d", i+1), g, en.Pos)
 	}
+	e.lazySMT = false
 	e.batch(s, from)
 	if e.con.HasModifies {
 		e.frameCheck(s, env)
